@@ -379,7 +379,8 @@ func (ss *SortedSet) searchReverse(nodes []*SortedSetNode, excludeStart, exclude
 		}
 	}
 
-	for x != nil && limit > 0 {
+	// x is the header when no member lies below the upper bound: the header is not a member
+	for x != nil && x != ss.header && limit > 0 {
 		if excludeStart {
 			if x.score <= start {
 				break
